@@ -14,7 +14,7 @@ RULE = (
 )
 BOUNDS = {
     "quick": "all well-formed chunk sequences of length <=3 over 10 text chunks + 9 references; 2 files x plain, 1 file x onmatch/once for templates of length <=2",
-    "thorough": "all well-formed chunk sequences of length <=4 over 10 text chunks + 6 references, length <=3 over 13 references; 3 files x 3 forms",
+    "thorough": "all well-formed chunk sequences of length <=4 over 10 text chunks + 6 references, length <=3 over 13 references, length 5 over 4 text chunks + 4 references; 3 files x 5 forms (length >=4: one file, plain form)",
 }
 CHUNK = 250
 BUDGET = {"quick": 600, "thorough": 3400}
@@ -49,8 +49,8 @@ FILES = [
 ]  # the fourth header's NAME is all digits (and is not a valid index): $.headers.77 is a reference by name
 
 
-def templates(maxlen, refs):
-    alpha = [["t", t] for t in TEXTS] + refs
+def templates(maxlen, refs, texts=None):
+    alpha = [["t", t] for t in (TEXTS if texts is None else texts)] + refs
     for n in range(1, maxlen + 1):
         for seq in itertools.product(alpha, repeat=n):
             seq = list(seq)
@@ -72,14 +72,14 @@ def cases(tier, seed):
                 yield {"t": t, "file": 2, "form": "once_named"}
     else:
         seen = set()
-        for t in itertools.chain(templates(4, REFS6), templates(3, REFS12)):
+        for t in itertools.chain(templates(4, REFS6), templates(3, REFS12), templates(5, REFS6[:4], texts=[" ", "..", "a.b ", ": "])):
             k = repr(t)
             if k in seen:
                 continue
             seen.add(k)
             for f in range(3):
                 for form in ("plain", "onmatch", "once", "named", "once_named"):
-                    if len(t) == 4 and (f != 0 or form != "plain"):
+                    if len(t) >= 4 and (f != 0 or form != "plain"):
                         continue
                     yield {"t": t, "file": f, "form": form}
 
